@@ -68,7 +68,9 @@ def gen_case(rng):
     if ops is not None:
         budgets["ops_reflection"] = ops
     cfg = merge(cfg, {"scheduler": {"budgets": budgets}})
-    tpl = rng.choice([None, "{labels}!!! ... ??? {intent}", "Ünïcödé {labels} — {snippets_text}", "   ", "word " * 300, "{snippets_text}"])
+    tpl = rng.choice([None, "{labels}!!! ... ??? {intent}", "Ünïcödé {labels} — {snippets_text}", "   ", "word " * 300, "{snippets_text}",
+                      # words separated by white space that is not ASCII (NBSP, ideographic space, em space, narrow NBSP, LS, NEL)
+                      "alpha\u00a0beta\u3000gamma\u2003delta\u202fepsilon\u2028zeta\u0085eta {labels}", "{labels}\u00a0{intent}\u3000{snippets_text}\u2003tail\u00a0end"])
     if tpl is not None and tpl.strip():
         cfg["t3"]["dialogue"] = {"template": tpl, "include_top_k_snippets": 3}
     cfg["t3"]["tokens"] = rng.choice([1, 16, 256, 512])
@@ -83,8 +85,9 @@ def gen_case(rng):
             # how the plan's request reaches the gate: Plan.reflection, or the flag the LLM planner path stashes on the state
             "flag_via": rng.choice(["plan", "plan", "stash"]),
             "fault": fault, "exc": rng.randrange(len(EXCS)), "agent": rng.choice(["A", "B", "Ünï"]), "turn": rng.choice([0, 0, 1, 7, 12, "0", "t7"]),
-            "text": rng.choice(["hello world", "moon river cat", "", "!!!", "tree " * 50]), "completion": rng.choice(["short summary", "multi\nline\tcompletion with   spaces", "w " * 400, "ünï ✓"]),
-            "clock2": {"pc_step": rng.choice([0.0, 1e-6]), "wall": rng.choice([1.0e9, 3.0e9])}}
+            "text": rng.choice(["hello world", "moon river cat", "", "!!!", "tree " * 50, "moon\u00a0river\u3000cat\u2003tree"]), "completion": rng.choice(["short summary", "multi\nline\tcompletion with   spaces", "w " * 400, "ünï ✓"]),
+            "clock2": {"pc_step": rng.choice([0.0, 1e-6]), "wall": rng.choice([1.0e9, 3.0e9]), "tz": rng.choice([None, "JST-9", "PST8PDT", "UTC0", "NST3:30"])},
+            "now_ms_float": rng.random() < 0.2}
 
 
 def expected_id(agent, turn, slot, text):
@@ -99,7 +102,7 @@ def expected_id(agent, turn, slot, text):
     return f"refl-{turn}-{agent}-{slot}-{h.hexdigest()[:12]}"
 
 
-def run_once(case, allow, fixture_lines, sess, vclock=None, record_key=None, then_closed=None):
+def run_once(case, allow, fixture_lines, sess, vclock=None, record_key=None, then_closed=None, tz=None):
     """One turn; returns dict of observations."""
     import clematis.engine.orchestrator.core as core
     import clematis.engine.orchestrator.reflection as RW
@@ -110,6 +113,20 @@ def run_once(case, allow, fixture_lines, sess, vclock=None, record_key=None, the
     import contextlib
 
     bootstrap.reset_globals()
+    if tz is not None:
+        # another process time zone for this run (POSIX TZ string, no tz database needed)
+        import time as _t
+        old_tz = os.environ.get("TZ")
+        os.environ["TZ"] = tz
+        _t.tzset()
+        try:
+            return run_once(case, allow, fixture_lines, sess, vclock=vclock, record_key=record_key, then_closed=then_closed, tz=None)
+        finally:
+            if old_tz is None:
+                os.environ.pop("TZ", None)
+            else:
+                os.environ["TZ"] = old_tz
+            _t.tzset()
     cfg = copy.deepcopy(case["cfg"])
     cfg["t3"]["allow_reflection"] = allow
     refl_mod = importlib.import_module("clematis.engine.stages.t3.reflect")
@@ -179,7 +196,8 @@ def run_once(case, allow, fixture_lines, sess, vclock=None, record_key=None, the
                 env.state["_planner_reflection_flag"] = bool(case["plan_flag"])
             with patched(refl_mod, "reflect", reflect_w), patched(RW, "write_reflection_entries", write_w), patched(core, "log_t3_reflection", tel_w), \
                     patched(llm.FixtureLLMAdapter, "generate", gen_w):
-                r = env.run(case["agent"], case["text"], case["turn"], plan=plan, vclock=vc, ctx_extra=extra)
+                nm_ = float(NOW_MS) if case.get("now_ms_float") else NOW_MS  # a driver may hand the logical clock over as a float
+                r = env.run(case["agent"], case["text"], case["turn"], now_ms=nm_, plan=plan, vclock=vc, ctx_extra=extra)
                 second = None
                 if then_closed is not None and not r["exc"]:
                     # the next turn on the SAME ctx object (the repository's own tests drive several turns through one ctx),
@@ -254,7 +272,8 @@ def check_case(case, sess: Session):
         eid = expected_id(case["agent"], case["turn"], slot, str(ep.get("text", "")))
         if ep.get("id") != eid:
             sess.violation("id-not-function-of-agent-turn-slot-text", tcase, {"got": ep.get("id"), "exp": eid})
-        if ep.get("ts") != o["now_iso"]:
+        if ep.get("ts") != o["now_iso"] and not case.get("now_ms_float"):
+            # (with a non-integer now_ms the writer falls back to its own epoch-based stamp: only its stability is judged)
             sess.violation("ts-not-from-logical-clock", tcase, {"got": ep.get("ts"), "exp": o["now_iso"]})
         sess.count("entries_written")
     writes_forbidden = fault in ("reflect-raises", "timeout", "fixture-missing", "fixture-empty-file", "fixture-corrupt", "fixture-miss", "fixture-empty-completion", "index-add-raises", "no-index")
@@ -271,13 +290,13 @@ def check_case(case, sess: Session):
     # --- replay under another clock: ids / ts / texts identical
     if fault in (None,):
         fx = [{"prompt_hash": k, "completion": case["completion"]} for k in calls["keys"]] if case["backend"] == "llm" else None
-        o2 = run_once(case, True, fx, sess, vclock=VClock(pc_step=case["clock2"]["pc_step"], wall=case["clock2"]["wall"]))
+        o2 = run_once(case, True, fx, sess, vclock=VClock(pc_step=case["clock2"]["pc_step"], wall=case["clock2"]["wall"]), tz=case["clock2"].get("tz"))
         if "rejected" not in o2 and not o2["r"]["exc"]:
             sess.count("clock_replays_compared")
             a = [(e.get("id"), e.get("ts"), e.get("text"), e.get("owner"), e.get("kind")) for e in o["adds"]]
             b = [(e.get("id"), e.get("ts"), e.get("text"), e.get("owner"), e.get("kind")) for e in o2["adds"]]
             if a != b:
-                sess.violation("entries-depend-on-wall-clock", tcase, {"a": a[:2], "b": b[:2]})
+                sess.violation("entries-depend-on-wall-clock-or-time-zone", tcase, {"a": a[:2], "b": b[:2], "tz": case["clock2"].get("tz")})
     # --- the next turn on the same ctx object with the gate closed: nothing may be computed, written or logged
     if fault is None and o["adds"]:
         how = "plan" if chash(case) [-1] in "01234567" else "config"
